@@ -44,9 +44,27 @@ static void *x_malloc(size_t n)
 		}
 		return NULL;
 	}
-	return malloc(n);
+	/* the block the library sees is NOT a libc block: freeing it with free(), or freeing a libc block
+	 * (strdup, OpenSSL, ...) through the library's free, is an allocator mismatch that ASan reports */
+	unsigned char *p = malloc(n + 16);
+	if (!p) return NULL;
+	memset(p, 0xA5, 16);
+	return p + 16;
 }
-static void x_free(void *p) { free(p); }
+static void x_free(void *p) { if (p) free((unsigned char *)p - 16); }
+
+/* free memory the library returned to the caller, with the free the library was configured with */
+static void lib_free(void *p)
+{
+	jwt_malloc_t m; jwt_free_t f;
+	jwt_get_alloc(&m, &f);
+	if (f) f(p); else free(p);
+}
+
+/* jwt_value_t reuse mode: one struct lives across operations and only the fields an application would
+ * touch are assigned (whatever the previous call left in .error stays there) */
+static int g_val_reuse = 0;
+static jwt_value_t g_val;
 
 /* ---- helpers ---- */
 static int hexval(int c)
@@ -159,6 +177,20 @@ static void op_set(char *obs, int which, void *obj, const char *type, const char
 	size_t nl, vl;
 	unsigned char *name = unhex(name_h, &nl), *sv = NULL;
 	jwt_value_error_t rc;
+	if (g_val_reuse) {
+		/* an application that keeps one jwt_value_t and fills in what the next call needs */
+		g_val.name = (char *)name;
+		g_val.replace = atoi(repl);
+		if (!strcmp(type, "int")) { g_val.type = JWT_VALUE_INT; g_val.int_val = atol(val); }
+		else if (!strcmp(type, "str")) { sv = unhex(val, &vl); g_val.type = JWT_VALUE_STR; g_val.str_val = (char *)sv; }
+		else if (!strcmp(type, "bool")) { g_val.type = JWT_VALUE_BOOL; g_val.bool_val = atoi(val); }
+		else { sv = unhex(val, &vl); g_val.type = JWT_VALUE_JSON; g_val.json_val = (char *)sv; }
+		rc = do_set(which, obj, &g_val);
+		obs_append(obs, "rc=%d verr=%d", (int)rc, (int)g_val.error);
+		g_val.name = NULL; g_val.str_val = NULL; g_val.json_val = NULL;
+		free(name); free(sv);
+		return;
+	}
 	memset(&v, 0, sizeof(v));
 	if (!strcmp(type, "int")) { jwt_set_SET_INT(&v, (char *)name, atol(val)); }
 	else if (!strcmp(type, "str")) { sv = unhex(val, &vl); jwt_set_SET_STR(&v, (char *)name, (char *)sv); }
@@ -177,17 +209,24 @@ static void op_get(char *obs, int which, void *obj, const char *type, const char
 	unsigned char *name = unhex(name_h, &nl);
 	jwt_value_error_t rc;
 	memset(&v, 0, sizeof(v));
+	if (g_val_reuse) {
+		v = g_val;                         /* carries the previous call's .error */
+		v.name = (char *)name;
+		v.type = !strcmp(type, "int") ? JWT_VALUE_INT : !strcmp(type, "str") ? JWT_VALUE_STR : !strcmp(type, "bool") ? JWT_VALUE_BOOL : JWT_VALUE_JSON;
+		v.int_val = 0; v.str_val = NULL; v.bool_val = 0; v.json_val = NULL; v.pretty = 0;
+	} else
 	if (!strcmp(type, "int")) { jwt_set_GET_INT(&v, (char *)name); }
 	else if (!strcmp(type, "str")) { jwt_set_GET_STR(&v, (char *)name); }
 	else if (!strcmp(type, "bool")) { jwt_set_GET_BOOL(&v, (char *)name); }
 	else { jwt_set_GET_JSON(&v, (char *)name); }
 	rc = do_get(which, obj, &v);
+	if (g_val_reuse) { g_val.error = v.error; }
 	obs_append(obs, "rc=%d verr=%d val=", (int)rc, (int)v.error);
 	if (rc == JWT_VALUE_ERR_NONE) {
 		if (!strcmp(type, "int")) obs_append(obs, "%ld", v.int_val);
 		else if (!strcmp(type, "str")) obs_hex(obs, v.str_val, v.str_val ? strlen(v.str_val) : 0);
 		else if (!strcmp(type, "bool")) obs_append(obs, "%d", v.bool_val);
-		else { obs_append(obs, "json:"); obs_hex(obs, v.json_val, v.json_val ? strlen(v.json_val) : 0); free(v.json_val); }
+		else { obs_append(obs, "json:"); obs_hex(obs, v.json_val, v.json_val ? strlen(v.json_val) : 0); lib_free(v.json_val); }
 	} else obs_append(obs, "x");
 	free(name);
 }
@@ -291,14 +330,14 @@ static void handle(char *line)
 		char *dst = NULL;
 		int r = jwt_base64uri_encode(&dst, (char *)inx, (int)l1);
 		putstr(dst); printf(" ret=%d", r);
-		free(dst); free(inx); free(in);
+		lib_free(dst); free(inx); free(in);
 	} else if (!strcmp(t[0], "uridec") && n >= 2) {
 		unsigned char *in = unhex(t[1], &l1);
 		char *inx = malloc(l1 + 1);               /* exact-size C string */
 		memcpy(inx, in, l1); inx[l1] = 0;
 		int rl = -12345;
 		unsigned char *out = jwt_base64uri_decode(inx, &rl);
-		if (!out) printf("NULL"); else { puthex(out, (size_t)rl); free(out); }
+		if (!out) printf("NULL"); else { puthex(out, (size_t)rl); lib_free(out); }
 		free(inx); free(in);
 	} else if (!strcmp(t[0], "strcmp") && n >= 3) {
 		unsigned char *a = unhex(t[1], &l1), *b = unhex(t[2], &l2);
@@ -433,7 +472,7 @@ static void handle(char *line)
 			printf("tok="); putstr(tok);
 			printf(" err=%d msg=%d cb=[%s]", jwt_builder_error(bl), jwt_builder_error_msg(bl)[0] ? 1 : 0, g_blcb[b].obs);
 			if (getenv("EXEC_MSG")) printf(" text=%s", jwt_builder_error_msg(bl));
-			free(g_last_tok);
+			lib_free(g_last_tok);
 			g_last_tok = tok;
 		} else if (!strcmp(t[2], "err")) { printf("err=%d msg=%d", jwt_builder_error(bl), jwt_builder_error_msg(bl)[0] ? 1 : 0);
 		} else if (!strcmp(t[2], "errclr")) { jwt_builder_error_clear(bl); printf("ok");
@@ -441,6 +480,10 @@ static void handle(char *line)
 	} else if (!strcmp(t[0], "allochook")) {
 		if (!g_alloc_hooked) { jwt_set_alloc(x_malloc, x_free); g_alloc_hooked = 1; }
 		g_alloc_count = 0; g_alloc_fail_at = n >= 2 ? atol(t[1]) : -1; g_fail_site[0] = 0;
+		printf("ok");
+	} else if (!strcmp(t[0], "valreuse") && n >= 2) {
+		g_val_reuse = atoi(t[1]);
+		memset(&g_val, 0, sizeof(g_val));
 		printf("ok");
 	} else if (!strcmp(t[0], "alloccount")) {
 		printf("%ld site=%s", g_alloc_count, g_fail_site[0] ? g_fail_site : "-");
@@ -459,12 +502,15 @@ int main(void)
 	char *line = NULL;
 	size_t cap = 0;
 	setvbuf(stdout, NULL, _IOFBF, 1 << 16);
+	/* every run uses an application-supplied allocator whose blocks are not libc blocks (unless the
+	 * environment asks for the library's default): pairing mistakes between the two show up under ASan */
+	if (!getenv("EXEC_DEFAULT_ALLOC")) { jwt_set_alloc(x_malloc, x_free); g_alloc_hooked = 1; }
 	while (getline(&line, &cap, stdin) > 0) {
 		if (line[0] == '#') continue;
 		handle(line);
 	}
 	free(line);
-	free(g_last_tok);
+	lib_free(g_last_tok);
 	for (int i = 0; i < NSLOT; i++) {
 		if (g_ck[i]) jwt_checker_free(g_ck[i]);
 		if (g_bl[i]) jwt_builder_free(g_bl[i]);
